@@ -23,7 +23,7 @@ RULE = ('case = (T1, T2, contents of X, sibling contents, route, extras). Enumer
         '{Text, Int, Numeric, Bool, Date, DateTime:<zone>, Choice, ChoiceList, Ref:Other, RefList:Other, Any} plus '
         'DateTime zone changes, each with 2 (quick) / 4 (thorough) fixed content galleries of 8 cells (right-type, None, "", '
         'alt text that parses as number / bool / ISO date / JSON list / RecordList repr, other-typed primitives) and alternating route '
-        '(ModifyColumn / UpdateRecord / BulkUpdateRecord on _grist_Tables_column). Generated part: random pair, 0-8 cells from '
+        '(ModifyColumn / UpdateRecord / BulkUpdateRecord on _grist_Tables_column; generated part also one BulkUpdateRecord changing X and the Int sibling K -> Text together). Generated part: random pair, 0-8 cells from '
         'value specs, route, optional summary table grouped by X or by sibling S, removed rows, two-way reference '
         '(Ref/RefList only), widgetOptions sent along, an earlier unjudged type change T0 -> T1 (contents left behind by a conversion). Non-trivial = the change succeeded and at least one cell of X '
         'changed its Node-visible value or became alt text; distinct by hash of the concrete user actions.')
@@ -40,8 +40,8 @@ ASSUMPTIONS = ['the expected value uses usertypes.<T2>.convert (C22 judges that 
                'incompatible type changes of a two-way reference column are documented to be rejected (ValueError) and are not judged',
                'Ref/RefList columns point to an existing table; no display columns / trigger formulas on X',
                'dependent formula results and summary tables keyed on X are exempt per the statement (not judged here)']
-BUDGET = {'quick': dict(examples=700, shards=12, max_seconds=60),
-          'thorough': dict(examples=14000, shards=16, max_seconds=480)}
+BUDGET = {'quick': dict(examples=600, shards=12, max_seconds=50),
+          'thorough': dict(examples=9000, shards=16, max_seconds=420)}
 
 ZONES = ['UTC', 'America/New_York', 'Asia/Tokyo']
 BASES = ['Text', 'Int', 'Numeric', 'Bool', 'Date', 'DateTime', 'Choice', 'ChoiceList', 'Ref', 'RefList', 'Any']
@@ -87,7 +87,7 @@ def strategy(tier):
     'from': bi, 'to': bi, 'zf': st.integers(0, 2), 'zt': st.integers(0, 2),
     'cells': st.lists(spec, min_size=0, max_size=8),
     'sib': st.lists(spec, min_size=1, max_size=3),
-    'via': st.integers(0, 2),
+    'via': st.integers(0, 3),
     'summary': st.sampled_from([0, 0, 0, 1, 2, 2]),
     'removed': st.lists(st.integers(0, 7), max_size=2),
     'twoway': st.sampled_from([False, False, False, True]),
@@ -224,7 +224,8 @@ def run_case(case):
     out['skipped'] = True
     return out
   xref = colref['X']
-  via = int(case.get('via', 0)) % 3
+  via = int(case.get('via', 0)) % 4
+  both = via == 3 and not case.get('wopt')     # X and the sibling K (Int -> Text) change type in one metadata action
   info = {'type': t2}
   wopt = None
   if case.get('wopt'):
@@ -234,12 +235,14 @@ def run_case(case):
     ua = ['ModifyColumn', 'Src', 'X', info]
   elif via == 1:
     ua = ['UpdateRecord', '_grist_Tables_column', xref, info]
+  elif both:
+    ua = ['BulkUpdateRecord', '_grist_Tables_column', [colref['K'], xref], {'type': ['Text', t2]}]
   else:
     ua = ['BulkUpdateRecord', '_grist_Tables_column', [xref], {k: [v] for k, v in info.items()}]
+  judged = [('X', t2)] + ([('K', 'Text')] if both else [])
   # observe before
-  col = d.engine.tables['Src'].get_column('X')
   rows = list(d.engine.tables['Src'].row_ids)
-  old_raw = {r: col.raw_get(r) for r in rows}
+  old_raws = {cid: {r: d.engine.tables['Src'].get_column(cid).raw_get(r) for r in rows} for cid, _ in judged}
   before = d.snapshot()
   meta_before = {c['id']: c for c in d.columns_meta()}
   rev_ref = meta_before[xref]['reverseCol']
@@ -247,7 +250,7 @@ def run_case(case):
   out['concrete'] = d.concrete_history()[1:]
   out['key'] = eqv.digest(out['concrete'])
   pair = '%s->%s' % (b1 if b1 != b2 else t1, b2 if b1 != b2 else t2)
-  out.cls('pair:' + pair, 'via:' + ua[0] + (':_grist_Tables_column' if via else ''))
+  out.cls('pair:' + pair, 'via:' + ua[0] + (':_grist_Tables_column' if via else '') + (':two-columns-at-once' if both else ''))
   if wopt:
     out.cls('request:with-widgetOptions')
   if case.get('w0'):
@@ -267,43 +270,51 @@ def run_case(case):
   if new_rows != rows:
     out.fail('C23:row-ids-changed', 'rows of Src changed from %r to %r' % (rows, new_rows))
     return out
-  col2 = d.engine.tables['Src'].get_column('X')
   changed = alt = 0
-  for row in rows:
-    old = old_raw[row]
-    exp = convert_to(t2, old)
-    got = col2.raw_get(row)
-    e_old, e_exp, e_got = enc(old), enc(exp), enc(got)
-    view_got = after['Src']['X'].get(row)
-    if view_got != e_got:
-      out.fail('C23:fetch-differs-from-stored', 'X[%s]: fetch_table reports %r but the column stores %r' % (row, view_got, e_got))
-      return out
-    if e_got != e_exp:
-      if e_got == e_old:
-        kind = 'value-not-converted'
-      elif is_alt(t2, exp) and not isinstance(got, str):
-        kind = 'converted-where-alt-text-expected'
-      elif isinstance(got, str) and not isinstance(exp, str):
-        kind = 'alt-text-where-conversion-expected'
-      else:
-        kind = 'wrong-converted-value'
-      out.fail('C23:%s:%s' % (kind, b2), 'Src.X %s -> %s: row %s stored %r became %r, but %s.convert gives %r' % (
-        t1, t2, row, objtypes.encode_object(old), objtypes.encode_object(got), t2, objtypes.encode_object(exp)),
-        {'row': row, 'old': objtypes.encode_object(old), 'got': objtypes.encode_object(got),
-         'expected': objtypes.encode_object(exp), 'from': t1, 'to': t2})
-      return out
-    if e_exp != e_old:
-      changed += 1
-    if is_alt(t2, exp):
-      alt += 1
+  for cid, tnew in judged:
+    col2 = d.engine.tables['Src'].get_column(cid)
+    bnew = tnew.split(':')[0]
+    for row in rows:
+      old = old_raws[cid][row]
+      exp = convert_to(tnew, old)
+      got = col2.raw_get(row)
+      e_old, e_exp, e_got = enc(old), enc(exp), enc(got)
+      view_got = after['Src'][cid].get(row)
+      if view_got != e_got:
+        out.fail('C23:fetch-differs-from-stored', '%s[%s]: fetch_table reports %r but the column stores %r' % (
+          cid, row, view_got, e_got))
+        return out
+      if e_got != e_exp:
+        if e_got == e_old:
+          kind = 'value-not-converted'
+        elif is_alt(tnew, exp) and not isinstance(got, str):
+          kind = 'converted-where-alt-text-expected'
+        elif isinstance(got, str) and not isinstance(exp, str):
+          kind = 'alt-text-where-conversion-expected'
+        else:
+          kind = 'wrong-converted-value'
+        out.fail('C23:%s:%s' % (kind, bnew), 'Src.%s %s -> %s: row %s stored %r became %r, but %s.convert gives %r' % (
+          cid, t1 if cid == 'X' else 'Int', tnew, row, objtypes.encode_object(old), objtypes.encode_object(got), tnew,
+          objtypes.encode_object(exp)),
+          {'row': row, 'old': objtypes.encode_object(old), 'got': objtypes.encode_object(got),
+           'expected': objtypes.encode_object(exp), 'from': t1 if cid == 'X' else 'Int', 'to': tnew, 'column': cid})
+        return out
+      if e_exp != e_old:
+        changed += 1
+      if is_alt(tnew, exp):
+        alt += 1
   # frame
   tmeta = {t['id']: t for t in d.tables_meta()}
   meta_after = {c['id']: c for c in d.columns_meta()}
   derived = set(cid for cid, c in meta_after.items() if c['summarySourceCol'] == xref)
   exempt_tables = set(tmeta[meta_after[cid]['parentId']]['tableId'] for cid in derived)
   own_cols = set([xref]) | derived
+  if both:
+    own_cols.add(colref['K'])
   own_fields = set(f['id'] for f in d.meta('_grist_Views_section_field') if f['colRef'] in own_cols)
   exempt_cells = set([('Src', 'X'), ('Src', 'F'), ('Src', 'H'), ('Other', 'L')])
+  if both:
+    exempt_cells.update([('Src', 'K'), ('Src', 'G')])      # G reads K
   if rev_ref:
     rc = meta_before[rev_ref]
     exempt_cells.add((tmeta[rc['parentId']]['tableId'], rc['colId']))
@@ -311,9 +322,10 @@ def run_case(case):
       exempt_cells.add((tmeta[rc['parentId']]['tableId'], meta_before[rc['displayCol']]['colId']))
   for cid, c in meta_after.items():
     # summary tables of Src get a same-named formula column SUM($group.X) when X is numeric: it reads X
-    if c['colId'] == 'X' and c['isFormula'] and tmeta[c['parentId']]['summarySourceTable']:
-      exempt_cells.add((tmeta[c['parentId']]['tableId'], 'X'))
-      out.cls('doc:summary-with-SUM(X)-column')
+    if c['colId'] in [j[0] for j in judged] and c['isFormula'] and tmeta[c['parentId']]['summarySourceTable']:
+      exempt_cells.add((tmeta[c['parentId']]['tableId'], c['colId']))
+      if c['colId'] == 'X':
+        out.cls('doc:summary-with-SUM(X)-column')
   structural, cells = eqv.cells_diff(before, after)
   structural = [s for s in structural if s[0] not in exempt_tables]
   if structural:
